@@ -358,6 +358,8 @@ def handler(sc, payload):
                 kw['auto_required_signers'] = sc['auto']
             if sc.get('collateral_change') is not None:
                 kw['collateral_change_address'] = Address(cred_obj(sc['collateral_change']), network=NET)
+            if sc.get('merge'):
+                kw['merge_change'] = True        # the change is folded into the output that already pays the change address
             tx = b.build_and_sign(keys, change_address=change, force_skeys=sc['force'], **kw)
             out['tx'] = tx.to_cbor().hex()
             out['sel_inputs'] = [x for x in outpoints(b.inputs) if x not in pre_inputs]
